@@ -199,11 +199,15 @@ fn oracle_roundtrip(line: &str, esc: &Escaper, x: &Expectation, s: &str, back: &
     let (k, e, o, m) = x.unmake();
     let classify = || -> &'static str {
         let printable = esc.escaped_printable(&e);
-        // the one open finding: EscapedRule::make drops a trailing ` (no-eol)` (cram compatibility),
-        // so bytes ending in it do not survive being written as an `escaped` expectation
-        // (equal with unprintable content is written as escaped). Everything else is a regression
-        // of fix 2c946ec and reported under the generic class.
-        if ((k == "equal" && esc.has_unprintable(&e)) || k == "escaped") && printable.ends_with(" (no-eol)") {
+        // two open findings; everything else is a regression and reported under the generic class.
+        // (1) regex / no-eol have no escaped syntax: an expression with unprintable characters is
+        // displayed through the escaper and read back literally.
+        // (2) EscapedRule::make drops a trailing ` (no-eol)` (cram compatibility), so bytes ending in
+        // it do not survive being written as an `escaped` expectation (equal with unprintable
+        // content is written as escaped).
+        if (k == "regex" || k == "no-eol") && esc.has_unprintable(&e) {
+            "C08:escaped-pattern-roundtrip"
+        } else if ((k == "equal" && esc.has_unprintable(&e)) || k == "escaped") && printable.ends_with(" (no-eol)") {
             "C08:escaped-no-eol-strip-roundtrip"
         } else {
             "C08:roundtrip"
@@ -291,7 +295,7 @@ fn case(prop: &str, line: &str, esc: Option<&Escaper>, stream_tag: &str) -> Case
                 "<panic>".to_string()
             }
         };
-        esc_tbl = format!("{}>{}:{}:{}", hex(&e), esc.has_unprintable(&e) as u8, hex(esc.escaped_printable(&e).as_bytes()), hex(String::from_utf8_lossy(&e).as_bytes()));
+        esc_tbl = format!("{}>{}:{}", hex(&e), esc.has_unprintable(&e) as u8, hex(esc.escaped_printable(&e).as_bytes()));
         mk_entries(&s, &mut mk);
         let back = if s == line { (pr.clone(), Some(x.clone())) } else { real_parse(&s) };
         impl_out = format!("{} | {} | {}", impl_out, hex(s.as_bytes()), show(&back.0));
